@@ -1,7 +1,187 @@
 import KitModel.Go.Prelude
-/-! Driver for property C14: `kitdrv C14` reads op lines on stdin, one answer line per input line. -/
+import KitModel.Ring
+import KitModel.Containers
+/-!
+Driver for property C14: `kitdrv C14` reads op lines on stdin, one answer line per input line.
+
+ring (node ids = allocation order, shared with the harness):
+  `reset` · `rnew n=` · `rzero` · `rnext p=` · `rprev p=` · `rmove p= n=` · `rlink p= s=<id|nil>` ·
+  `runlink p= n=` · `rlen p=<id|nil>` · `rdo p=<id|nil>` · `rset p= v=` · `rget p=` · `rdump`
+buffered: `bnew init= bsize=` · `bapp v=<n|nil>` · `brem` · `bfront` · `blen` · `brange stop=<n|nil|never>` · `bring`
+linearizability: `lin obj=<map|ctr|amap|slice> h=<ev;ev;…>` with `ev = I/<t>/<op>/<args>/<res>` or `R/<t>`
+-/
 namespace Driver.C14
+open Kit Kit.Ring Kit.Containers
+
+structure St where
+  heap : Heap Int := #[]
+  buf : Buf := Buf.new 1 1
+
+def showOpt : Option Nat → String
+  | none => "nil"
+  | some n => toString n
+
+def parseOpt (s : String) : Option (Option Nat) :=
+  if s == "nil" then some none else s.toNat?.map some
+
+def showInts (xs : List Int) : String := ",".intercalate (xs.map toString)
+def showVals (xs : List (Option Nat)) : String := ",".intercalate (xs.map showOpt)
+
+def ptr? (st : St) (l : Line) (k : String) : Option Nat :=
+  (l.nat? k).bind fun p => if p < st.heap.size then some p else none
+
+def optPtr? (st : St) (l : Line) (k : String) : Option (Option Nat) :=
+  match l.get? k with
+  | some "nil" => some none
+  | _ => (ptr? st l k).map some
+
+/-! #### history parsing -/
+
+def parseInts (s : String) : Option (List Int) :=
+  if s == "" then some [] else (s.splitOn ",").mapM String.toInt?
+
+def parseRet (s : String) : Option Ret :=
+  match s.toList with
+  | ['u'] => some .unit
+  | 'n' :: rest => (String.ofList rest).toInt?.map .int
+  | 'v' :: rest =>
+    match parseInts (String.ofList rest) with
+    | some [v, b] => some (.val v (b != 0))
+    | _ => none
+  | 'l' :: rest => (parseInts (String.ofList rest)).map .list
+  | _ => none
+
+def toNats (xs : List Int) : Option (List Nat) :=
+  xs.mapM fun x => if x < 0 then none else some x.toNat
+
+def parseMapOp (op : String) (a : List Int) : Option MapOp :=
+  match op, toNats a with
+  | "clear", some [] => some .clear
+  | "delete", some [k] => some (.delete k)
+  | "load", some [k] => some (.load k)
+  | "lad", some [k] => some (.loadAndDelete k)
+  | "range", some [] => some .range
+  | "store", some [k, v] => some (.store k v)
+  | "len", some [] => some .len
+  | "keys", some [] => some .keys
+  | _, _ => none
+
+def parseCtrOp (op : String) (a : List Int) : Option CtrOp :=
+  match op, a with
+  | "load", [] => some .load
+  | "store", [v] => some (.store v)
+  | "add", [v] => some (.add v)
+  | _, _ => none
+
+def parseAMOp (op : String) (a : List Int) : Option AMOp :=
+  match op, a with
+  | "get", [k] => if k < 0 then none else some (.get k.toNat)
+  | "goc", [k, c] => if k < 0 then none else some (.getOrCreate k.toNat c)
+  | "delete", [k] => if k < 0 then none else some (.delete k.toNat)
+  | "foreach", [] => some .forEach
+  | "clear", [] => some .clear
+  | "cload", [p] => if p < 0 then none else some (.cload p.toNat)
+  | "cstore", [p, v] => if p < 0 then none else some (.cstore p.toNat v)
+  | "cadd", [p, v] => if p < 0 then none else some (.cadd p.toNat v)
+  | _, _ => none
+
+def parseSlOp (op : String) (a : List Int) : Option SlOp :=
+  match op, toNats a with
+  | "append", some xs => some (.append xs)
+  | "len", some [] => some .len
+  | "slice", some [] => some .slice
+  | _, _ => none
+
+def parseHist {ι : Type} (pop : String → List Int → Option ι) (s : String) : Option (List (HEv ι Ret)) :=
+  if s == "" then some [] else
+  (s.splitOn ";").mapM fun tok =>
+    match tok.splitOn "/" with
+    | ["R", t] => t.toNat?.map .ret
+    | ["I", t, op, args, res] => do
+      let t ← t.toNat?
+      let a ← parseInts args
+      let i ← pop op a
+      let r ← parseRet res
+      pure (.inv t i r)
+    | _ => none
+
+def linAnswer (obj h : String) : String :=
+  let ans (b : Option Bool) : String :=
+    match b with
+    | some true => "lin=1"
+    | some false => "lin=0"
+    | none => "err=parse"
+  match obj with
+  | "map" => ans ((parseHist parseMapOp h).map (linCheck mapSpec))
+  | "ctr" => ans ((parseHist parseCtrOp h).map (linCheck ctrSpec))
+  | "amap" => ans ((parseHist parseAMOp h).map (linCheck amSpec))
+  | "slice" => ans ((parseHist parseSlOp h).map (linCheck slSpec))
+  | _ => "err=obj"
+
+/-! #### one line -/
+
+def dumpHeap (h : Heap Int) : String :=
+  ";".intercalate (h.toList.map fun n => s!"{n.next},{n.prev},{n.val}")
+
+def step (st : St) (raw : String) : St × String :=
+  let l := parseLine raw
+  let bad := (st, "err=args")
+  match l.op with
+  | "reset" => ({}, "ok")
+  | "rnew" =>
+    match l.int? "n" with
+    | some n => let (h, r) := Ring.new st.heap n (0 : Int); ({ st with heap := h }, showOpt r)
+    | none => bad
+  | "rzero" => let (h, r) := alloc st.heap (0 : Int); ({ st with heap := h }, toString r)
+  | "rnext" => match ptr? st l "p" with | some p => (st, toString (next st.heap p)) | none => bad
+  | "rprev" => match ptr? st l "p" with | some p => (st, toString (prev st.heap p)) | none => bad
+  | "rmove" =>
+    match ptr? st l "p", l.int? "n" with
+    | some p, some n => (st, toString (move st.heap p n))
+    | _, _ => bad
+  | "rlink" =>
+    match ptr? st l "p", optPtr? st l "s" with
+    | some p, some s => let (h, r) := link st.heap p s; ({ st with heap := h }, toString r)
+    | _, _ => bad
+  | "runlink" =>
+    match ptr? st l "p", l.int? "n" with
+    | some p, some n => let (h, r) := unlink st.heap p n; ({ st with heap := h }, showOpt r)
+    | _, _ => bad
+  | "rlen" => match optPtr? st l "p" with | some p => (st, toString (lenOpt st.heap p)) | none => bad
+  | "rdo" => match optPtr? st l "p" with | some p => (st, showInts (doAll st.heap p)) | none => bad
+  | "rset" =>
+    match ptr? st l "p", l.int? "v" with
+    | some p, some v => ({ st with heap := setVal st.heap p v }, "ok")
+    | _, _ => bad
+  | "rget" => match ptr? st l "p" with | some p => (st, toString (vl st.heap p)) | none => bad
+  | "rdump" => (st, dumpHeap st.heap)
+  | "bnew" =>
+    match l.int? "init", l.int? "bsize" with
+    | some i, some b => ({ st with buf := Buf.new i b }, "ok")
+    | _, _ => bad
+  | "bapp" =>
+    match (l.get? "v").bind parseOpt with
+    | some v => ({ st with buf := st.buf.appendBack v }, "ok")
+    | none => bad
+  | "brem" => let (b, v) := st.buf.removeFront; ({ st with buf := b }, showOpt v)
+  | "bfront" => (st, showOpt st.buf.front)
+  | "blen" => (st, toString st.buf.len)
+  | "brange" =>
+    match l.get? "stop" with
+    | some "never" => (st, showVals (st.buf.range (stopFn none)))
+    | some s =>
+      match parseOpt s with
+      | some v => (st, showVals (st.buf.range (stopFn (some v))))
+      | none => bad
+    | none => bad
+  | "bring" => (st, toString (Ring.len st.buf.heap st.buf.ring))
+  | "lin" =>
+    match l.get? "obj", l.get? "h" with
+    | some o, some h => (st, linAnswer o h)
+    | _, _ => bad
+  | _ => (st, "err=op")
+
 def main (_args : List String) : IO UInt32 := do
-  IO.eprintln "kitdrv: C14 has no model driver yet"
-  return 2
+  lineLoop step ({} : St)
+  return 0
 end Driver.C14
